@@ -16,6 +16,9 @@ Require Import V.Proofs.RingConc.
 Require Import V.Proofs.RingConcThm.
 Require Import V.Proofs.RingUnblock.
 Require Import V.Proofs.C06OracleProofs.
+Require Import V.Oracle.C06Oracle.
+Require Import V.Oracle.C07Oracle.
+Require Import V.Proofs.C07OracleProofs.
 Open Scope Z_scope.
 
 (* every configuration reachable under any schedule (inside the position window) satisfies the invariant *)
@@ -67,6 +70,15 @@ Theorem C07_order : forall lo cfg, Inv lo cfg ->
   r_hc R <= r_head R /\ r_head R <= r_tail R /\ r_tail R <= r_head R + r_cap R.
 Proof. exact inv_order. Qed.
 Print Assumptions C07_order.
+
+(* the predicate with which the check judges one unblock() of the implementation - dump before, dump after,
+   result, head, tail, known claim boundaries - is true of the model's unblock in every reachable configuration *)
+Theorem C07_oracle_unblock : forall lo cfg bounds, Inv lo cfg -> cons_idle (g_cons cfg) ->
+  let R := g_ring cfg in
+  (forall s, In s (r_slots R) -> In (s_pos s) bounds) ->
+  unblock_ok (r_cap R) (r_head R) (r_tail R) bounds (render R) (render (fst (unblock R))) (Ok (b2z (snd (unblock R)))) = true.
+Proof. exact oracle_unblock_model. Qed.
+Print Assumptions C07_oracle_unblock.
 
 (* ---- non-vacuity and the defect ---- *)
 (* a producer claims 24 + 32 bytes on a 256-byte ring with 24 bytes left before the end and dies right after
